@@ -701,7 +701,12 @@ fn spell_table(rng: &mut Rng, listed: bool) -> (String, &'static str) {
 
 /// A statement that mentions relation `rel` in one of the positions a relation can appear in.
 fn relation_statement(rng: &mut Rng, rel: &str, tag: &str) -> (String, &'static str) {
-    match rng.below(12) {
+    match rng.below(17) {
+        12 => (format!("COPY {} TO STDOUT /* {} */", rel, tag), "copy_to"),
+        13 => (format!("COPY (SELECT '{}' FROM {}) TO STDOUT", tag, rel), "copy_query"),
+        14 => (format!("TRUNCATE {} /* {} */", rel, tag), "truncate"),
+        15 => (format!("TABLE {} /* {} */", rel, tag), "table_statement"),
+        16 => (format!("MERGE INTO open_t o USING {} s ON s.id = o.id WHEN MATCHED THEN UPDATE SET v = '{}'", rel, tag), "merge_using"),
         0 => (format!("SELECT '{}' FROM {}", tag, rel), "from"),
         1 => (format!("SELECT '{}' FROM open_t o JOIN {} s ON s.id = o.id", tag, rel), "join"),
         2 => (format!("SELECT '{}' FROM open_t WHERE id IN (SELECT id FROM {})", tag, rel), "subquery_in"),
